@@ -133,7 +133,9 @@ pub fn history_case(g: &mut Gen, cfg: &PicCfg, max_len: usize) -> Verdict {
                 last = Some(slot.clone());
                 if ptype != PicType::D {
                     reference = Some(slot);
-                    like.size = this_size;
+                    // later predicted pictures follow this one: size, and the modes a header
+                    // that restates nothing inherits
+                    like = pic.hdr.clone();
                     d_seen = false;
                 } else {
                     d_seen = true;
